@@ -990,6 +990,7 @@ enum {
 	ITER_METHOD_NORMAL,
 	ITER_METHOD_NEXT,
 	ITER_METHOD_LEFTMOST,
+	ITER_METHOD_NO_BLOCKS,
 };
 
 
@@ -1005,9 +1006,13 @@ iter_set_info(lzma_index_iter *iter)
 	// group in the index, because that may be reallocated by
 	// lzma_index_cat().
 	if (group == NULL) {
-		// There are no groups.
+		// There are no groups. This must be kept distinct from
+		// "the first Record of the only group" (ITER_METHOD_LEFTMOST
+		// with ITER_RECORD == 0): if Blocks are appended to this
+		// Stream later, lzma_index_iter_next() has to return the
+		// first of them instead of skipping it.
 		assert(stream->groups.root == NULL);
-		iter->internal[ITER_METHOD].s = ITER_METHOD_LEFTMOST;
+		iter->internal[ITER_METHOD].s = ITER_METHOD_NO_BLOCKS;
 
 	} else if (i->streams.rightmost != &stream->node
 			|| stream->groups.rightmost != &group->node) {
@@ -1129,6 +1134,7 @@ lzma_index_iter_next(lzma_index_iter *iter, lzma_index_iter_mode mode)
 	const index_stream *stream = iter->internal[ITER_STREAM].p;
 	const index_group *group = NULL;
 	size_t record = iter->internal[ITER_RECORD].s;
+	bool first_block_pending = false;
 
 	// If we are being asked for the next Stream, leave group to NULL
 	// so that the rest of the this function thinks that this Stream
@@ -1149,11 +1155,24 @@ lzma_index_iter_next(lzma_index_iter *iter, lzma_index_iter_mode mode)
 			group = (const index_group *)(
 					stream->groups.leftmost);
 			break;
+
+		case ITER_METHOD_NO_BLOCKS:
+			// The Stream had no Blocks when the iterator was
+			// positioned to it. If Blocks have been appended
+			// since then, the next Block is the first one.
+			group = (const index_group *)(
+					stream->groups.leftmost);
+			first_block_pending = group != NULL;
+			break;
 		}
 	}
 
 again:
-	if (stream == NULL) {
+	if (first_block_pending) {
+		first_block_pending = false;
+		record = 0;
+
+	} else if (stream == NULL) {
 		// We at the beginning of the lzma_index.
 		// Locate the first Stream.
 		stream = (const index_stream *)(i->streams.leftmost);
